@@ -33,6 +33,8 @@ class HD {
     public qubit dq;
     public constructor() -> HD = default;
     public destructor() -> void {
+        qubit ds;
+        x(ds);
         h(this.dq);
     }
 }
@@ -157,6 +159,7 @@ def _init_helper_lines():
         "freset": _line_of(P, "\n    reset p;") + 1,
         "inner2": _line_of(P, "\n    h(p);") + 1,
         "HD.dtor": _line_of(P, "        h(this.dq);"),
+        "HD.dtor.x": _line_of(P, "        x(ds);"),
     })
 
 
@@ -205,7 +208,7 @@ PROFILES = {
                     misuse=0, alias=0, block=4, measure_reg=2),
 }
 
-NEED = {"H1": 3, "HT": 1, "H2": 4, "HA": 3, "HD": 1}     # qubits owned by an instance
+NEED = {"H1": 3, "HT": 1, "H2": 4, "HA": 3, "HD": 2}     # HD: its own qubit + the one its destructor declares     # qubits owned by an instance
 REGFIELD = {"H1": ("qs", 2), "HA": ("ta", 3)}   # the qubit[] field of a class
 
 ANGLES = [0.5, -0.5, 1.5, 0.25, 3.0, -2.75, 0.125, 6.25, 0.0, 1.0, -1.0, 0.0078125, 100.5,
@@ -321,6 +324,8 @@ class Gen:
         cls = self.r.choice(["H1", "H1", "H2", "HT", "HA"] if self.p != "tracked" else ["HT", "HT", "HA", "H1"])
         if self.p in ("flags", "flags_recycle") and self.r.random() < 0.4:
             cls = "HD"     # its destructor applies a gate to its qubit: a measured dq makes the death itself a misuse
+        elif self.p in ("handles", "reset", "qasm") and self.r.random() < 0.2:
+            cls = "HD"     # (never measured in these profiles) its destructor also declares a qubit of its own
         need = NEED[cls]
         if self.nq + need > self.max_qubits + 2:
             cls, need = "HT", 1
@@ -340,7 +345,7 @@ class Gen:
         name, cls = self.r.choice(objs)
         objs.remove((name, cls))
         # destroyed qubits are recycled by later allocations
-        self.nq -= NEED[cls]
+        self.nq -= NEED[cls] - (1 if cls == "HD" else 0)    # the destructor's own qubit stays allocated
         return dict(k="destroy", name=name)
 
     def stmt_alias(self):
@@ -357,6 +362,22 @@ class Gen:
 
     def stmt_gate(self):
         g = self.r.choice(["h", "x", "y", "z", "rx", "ry", "rz", "cx", "cx", "h", "ry"])
+        bits = self.visible("bits")
+        if bits and self.r.random() < 0.15 and not getattr(self, "misusing", False):
+            # a register element selected by a measured bit: r[b]
+            regs = [nm for nm, sz in self.visible("regs") if sz >= 2 and
+                    not any(("r", nm, i) in self.pm for i in range(sz)) and ("r", nm, "*") not in self.pm]
+            if regs:
+                return dict(k="gate", g=self.r.choice(["x", "h", "z"]), qs=[("ei", self.r.choice(regs), self.r.choice(bits))],
+                            theta=None, via="direct")
+        if self.r.random() < 0.06 and not getattr(self, "misusing", False):
+            # ... or by a bit-typed local holding a literal: bit sel = 1b; x(r[sel]);
+            regs = [nm for nm, sz in self.visible("regs") if sz >= 2 and
+                    not any(("r", nm, i) in self.pm for i in range(sz)) and ("r", nm, "*") not in self.pm]
+            if regs:
+                sel = self.fresh("sel")
+                return dict(k="gate", g=self.r.choice(["x", "h", "y"]), qs=[("ei", self.r.choice(regs), sel)],
+                            theta=None, via="direct", pre_bit=(sel, self.r.choice([1, 1, 0])))
         if g == "cx":
             qs = self.pick_q(2)
             if not qs:
@@ -384,6 +405,9 @@ class Gen:
         qs = self.pick_q(1)
         if not qs:
             return None
+        if not getattr(self, "misusing", False) and self.p not in ("flags", "flags_recycle") and \
+                qs[0][0] == "f" and qs[0][2] == "dq":
+            return None       # HD's destructor touches dq: measured, its death would stop the run
         form = self.r.choice(["stmt", "expr", "expr", "qfunc", "fstmt", "method", "echoexpr"])
         bit = None
         if form in ("expr", "qfunc", "method"):
@@ -617,6 +641,8 @@ class Renderer:
             self.emit(ind, "qubit %s = %s;" % (s["name"], render_qref(s["src"])), s)
         elif k == "gate":
             g, via = s["g"], s["via"]
+            if s.get("pre_bit"):
+                self.emit(ind, "bit %s = %db;" % s["pre_bit"])
             args = [render_qref(q) for q in s["qs"]]
             if s["theta"] is not None:
                 args.append(self.theta_src(s))
@@ -995,8 +1021,13 @@ class Model:
         want = set(inst.all_indices())
         tracked_expect = []
         if inst.cls == "HD":
-            # the user destructor runs first: h(this.dq)
+            # the user destructor runs first: qubit ds; x(ds); h(this.dq)
             idx = inst.q["dq"]
+            ds = self.alloc("destructor local ds")
+            self.live.pop(ds, None)          # not reachable once the destructor returns
+            self.expect_sim("x", ds, what=" [HD destructor]")
+            self.state.gate("x", ds, 0.0)
+            self.check_state("x q%d in destructor" % ds)
             self.op_guard(idx, HELPER_LINE["HD.dtor"], "destructor h")
             self.expect_sim("h", idx, what=" [HD destructor]")
             self.state.gate("h", idx, 0.0)
@@ -1115,11 +1146,21 @@ class Model:
                             inst.cls == "HD" and not inst.dead):
                         chosen = inst
                         break
-            if nxt is not None and nxt["k"] == "sim" and nxt["op"] == "h":
-                for inst in pending:
-                    if inst.cls == "HD" and inst.q["dq"] == nxt["q0"]:
-                        chosen = inst
-                        break
+            if chosen is None and nxt is not None and nxt["k"] == "sim" and nxt["op"] in ("alloc", "reset"):
+                # an HD's destructor starts by declaring a qubit: a fresh allocation, or the recycling
+                # reset of an index that belongs to no dying object
+                hds = [inst for inst in pending if inst.cls == "HD" and not inst.dead]
+                if hds:
+                    # which HD it is shows two simulator operations later: x(ds), then h(its dq) - or
+                    # nothing at all, when that dq is measured and the destructor is refused
+                    sims = [e for e in self.ev[self.pos:] if e["k"] == "sim"][1:3]
+                    hq = sims[1]["q0"] if len(sims) == 2 and sims[1]["op"] == "h" else None
+                    for inst in hds:
+                        if inst.q["dq"] == hq:
+                            chosen = inst
+                    if chosen is None:
+                        refused = [inst for inst in hds if inst.q["dq"] in self.measured]
+                        chosen = (refused or hds)[0]
             if chosen is None:
                 break
             pending.remove(chosen)
@@ -1305,6 +1346,8 @@ class Model:
 
     def gate(self, s):
         g, via = s["g"], s["via"]
+        if s.get("pre_bit"):
+            self.scopes[-1][s["pre_bit"][0]] = ("bit", s["pre_bit"][1])
         ix = [self.resolve(q) for q in s["qs"]]
         helper = {"direct": None, "func": "f" + g, "funcr": "fcxr", "qfunc": "qh",
                   "nested": "inner2", "method": "m" + g}[via]
@@ -1342,8 +1385,10 @@ def check_execution(ir, events, expect_error=None):
         m.run(ir)
     except StopRun as s:
         stop = s
-    except Mismatch:
-        pass
+    except Mismatch as ex:
+        # most call sites report before raising; make sure none is lost
+        if not any(f[0] == ex.prop and f[1] == ex.key for f in m.findings):
+            m.report(ex.prop, ex.key, ex.what)
     except (KeyError, IndexError, TypeError) as ex:
         m.report("HARNESS", "model-error", "reference model failed: %r" % (ex,))
     else:
@@ -1428,6 +1473,28 @@ def check_case(ctx, prop, binary, case, report_props=None):
     ctx.count("lang_recycled_allocs", m.counts["recycled"])
     ctx.count("lang_tracked_records", m.counts["tracked"])
     want = report_props or {prop, "HARNESS"}
+    if prop == "C02" and case.get("shots") and cls[0] == "ok":
+        # the aggregate table printed after a multi-shot run is one more view of the measured outcomes:
+        # per tracked key and outcome it must count exactly the records of all shots
+        from .props.c17 import parse_table
+        agg = {}
+        for e in events:
+            if e["k"] == "tracked":
+                agg.setdefault(e["key"], {})
+                agg[e["key"]][e["outcome"]] = agg[e["key"]].get(e["outcome"], 0) + 1
+        lines = r.stdout.split("\n")
+        if lines and lines[-1] == "":
+            lines.pop()
+        hdr = [i for i, l in enumerate(lines) if l.startswith("Shots:")]
+        if hdr and agg:
+            body = [l for l in lines[hdr[-1] + 1:] if not l.startswith(("Backend:", "Elapsed:"))]
+            table = parse_table(body)
+            ctx.count("lang_tables_compared")
+            if table is not None:
+                got = {k: {o: c for o, (c, _) in rows.items()} for k, rows in table.items()}
+                if got != agg:
+                    ctx.violation("measure:views:table", "the printed tracked table %r differs from the outcomes "
+                                  "recorded by the shots %r" % (got, agg), case, files)
     for p, key, what in m.findings:
         if prop == "C02" and p == "C17" and key == "tracked:outcome":
             # the tracked outcome is one of the views C02 requires to agree with the returned bit
